@@ -35,7 +35,7 @@ def render_source(sc):
     return eng.render_source(sc)
 
 DRIVER_ERR = eng.DRIVER_ERR
-K = dict(p_clone=0.2, cbs=0.5, conv=0.25, guards=0.5, validators=0.25, sends=0.12, raises=0.04, guard_raise=0.0, multi_event=0.4,
+K = dict(base_exc=0.15, p_clone=0.2, cbs=0.5, conv=0.25, guards=0.5, validators=0.25, sends=0.12, raises=0.04, guard_raise=0.0, multi_event=0.4,
          multi_cand=0.6, p_async=0.0, rtc_false=0.0, ops=(2, 9), scripts=(0, 3), share_groups=0.0, falsy_machine=0.0)
 DRIVERS = ["plain", "loop", "threads"]
 
